@@ -79,7 +79,7 @@ def probe(args):
 
 def run(chk):
     chk.rule = ('generated wordlists (4-5 languages incl. names that coincide after lower-casing, 4-6 concepts, synonyms) analysed in separate '
-                'interpreter runs under 4/16 values of PYTHONHASHSEED with random.seed fixed: LexStat index, permutation-based scorer, '
+                'interpreter runs under 4/16 values of PYTHONHASHSEED with random.seed fixed: LexStat index, permutation-based and Markov-generated scorer, '
                 'cluster by turchin / edit-dist / sca / lexstat x upgma / single / complete / mcl / link_clustering, Alignments.align, NJ and UPGMA '
                 'trees; each analysis repeated on the same object; non-trivial = every generated wordlist (>= 4 languages)')
     chk.lean_obligations()
@@ -100,7 +100,7 @@ def run(chk):
     scratch = tempfile.mkdtemp(prefix='verif-c18-', dir='/var/tmp')
     fails = []
     try:
-        nwl = chk.n(5, 40)
+        nwl = chk.n(10, 40)
         seeds = list(range(chk.n(4, 16)))
         jobs, wls = [], []
         for i in range(nwl):
